@@ -85,14 +85,14 @@ UND = r'(ABORT_CYCLING|RUNNING|UNKNOWN|ERROR|SINGULAR)'
 open_(SOLVE, r'(netlib\.)?(cert\.|reuse\.|resolve\.|.*\.resume\.|.*wrong-verdict|complete\.|.*harmless|basis\.|resolve-after|copy-|twins|dependent).*:\{.*solution_polishing=[12].*\}.*',
       'solution polishing (solution_polishing=1|2) returns OPTIMAL with slack != Ax, bound violations or a wrong status after its extra pivots', regex=True,
       repro='./vcheck C01 (any seed): keys C01:cert.slack:{...solution_polishing=...}')
-open_(['C01'], r'cert\.redcost:\{\}\+needs\{simplifier\}',
+open_(['C01', 'C09'], r'(user\.)?cert\.redcost:\{\}\+needs\{simplifier\}',
       'default configuration: reduced cost != c - A^T y after presolve (dual postsolve of an aggregation whose basis status was swapped; same root cause as the C08 Aggregation finding); x, slacks and objective are right', regex=True)
 open_(['C04', 'C06', 'C16', 'C14'], r'(reuse\.[a-z\-]+|resolve\.status|[a-z]+\.resume|objlimit\.harmless-changes-status|state\.resolve-status)\.' + UND + r':.*',
       'warm-started / resumed solves occasionally end undecided (ABORT_CYCLING, or RUNNING/UNKNOWN after an internal exception such as XLEAVE04) where a solve from scratch decides', regex=True)
-open_(['C06'], r'resolve\.status\.OPTIMAL:.*',
+open_(['C06'], r'resolve\.(status\.[A-Z_]+|objective)\+nonbasic-free-row:.*',
       'after changeRange*/changeLhs/changeRhs made a nonbasic row free (or relaxed its active side to infinity) the warm-started solve keeps the row nonbasic with a nonzero dual and reports OPTIMAL in 0 iterations for an unbounded LP', regex=True,
       repro='history: min, solve, setIntParam(OBJSENSE,max), changeRangeReal(vec) making the only row free, optimize -> OPTIMAL 150 (LP is unbounded)')
-open_(['C06', 'C04'], r'(basis\.bind\.after[.\-]remove.*|exception\.remove.*Invalid.*|basis\.exception\.after-modification:.*)',
+open_(['C06', 'C04'], r'(basis\.bind\.after[.\-]remove.*|basis\.bind\.after\.[A-Za-z(),]+\+earlier-row-removal:.*|exception\.remove.*Invalid.*|basis\.exception\.after-modification:.*)',
       'after removing rows while the LP is loaded with a basis, getBasisInd() reads stale basis ids (wrong indices or SPxException "Invalid index") although hasBasis() stays true', regex=True)
 open_(['C05'], r'(mult\.(value|nonfinite)\.rep=row\.(scaled|unscaled)(\.internal)?|(invcol|solve)\.(residual|nonfinite)\.rep=row\.scaled(\.internal)?):.*',
       'row representation: multBasis returns wrong values with and without scaling (accumulates into a DSVector with duplicate indices, adds scaled and unscaled columns), and on a scaled LP getBasisInverseColReal (drops an spxLdexp result) and getBasisInverseTimesVecReal are wrong - upstream "@todo does not work correctly"; the other queries of the row representation are judged normally', regex=True)
@@ -102,6 +102,9 @@ open_(['C05'], r'crash:(nonrepro-)?signal:SIG(SEGV|ABRT|FPE|BUS):.*', 'row repre
 open_(['C17', 'C01', 'C02'], r'(history-dependent\.status\.OPTIMAL|complete\.OPTIMAL|cert\.(dualsign|rowdual)[a-z.\-]*):\{[^}]*starter=[123][^}]*\}.*',
       'nonbasic free rows are never priced: SPxSolverBase::coTest() has no P_FREE case (and entering one throws XENTER02 "not yet debugged"), so a basis with a nonbasic free row - produced by the weight/sum/vector starters - is reported OPTIMAL with a nonzero dual on the free row, e.g. for an unbounded LP (same root cause as the C06 free-row warm start finding)', regex=True,
       repro='findings/C17_starter_free_row_optimal.cpp')
+open_(['C01'], r'cert\.(bound|side):\{[^}]*ratiotester=0[^}]*scaler=0[^}]*\}.*',
+      'textbook ratio test (ratiotester=0) with scaling switched off on a badly scaled LP: OPTIMAL is reported with a bound violated far beyond the tolerance (2e-3 on a variable boxed in +-7e-4); the final verification does not catch it', regex=True,
+      repro='./vcheck C01 --seed 7: key C01:cert.bound:{ratiotester=0,representation_switch=5,scaler=0}')
 open_(['C17'], r'resolve-after-clearBasis-differs:.*',
       'solving the same unmodified object again after clearBasis() is not a replica of the first solve (different iteration count / vertex in 1-3% of the LPs): per-solve state survives clearBasis()', regex=True)
 # --- exact solver
@@ -116,6 +119,9 @@ open_(['C08'], r'(postsolve\.(rcsign|compl-col|compl-row|dualsign|redcost)|basis
       'TightenBoundsPS: dual postsolve / basis status after bound tightening is incomplete (nonbasic at a bound the original LP does not have, wrong number of basic variables)', regex=True)
 open_(['C08'], r'basis\.(bound|singular|count)\.(okay|vanished):\{[^}]*\}',
       'postsolved basis can carry ON_LOWER/ON_UPPER/ZERO on a variable whose original bound is infinite / finite (FixVariable, FreeColSingleton, ZeroObjColSingleton, redundant-bound removal without PostStep)', regex=True)
+open_(['C08'], r'postsolve\.(rcsign|compl-col)\.(okay|vanished):\{[^}]*FreeColSingleton[^}]*RowSingleton[^}]*\}',
+      'FreeColSingletonPS followed by RowSingletonPS: the reduced cost of a column whose bound was moved by the row singleton keeps a sign that is only valid for the tightened (finite) bound although the original bound is infinite', regex=True,
+      repro='findings/C08_rcsign_freecolsingleton_rowsingleton.lp (keepbounds=true)')
 open_(['C08'], r'postsolve\.(compl-row|dualsign)\.(okay|vanished):\{[^}]*RowSingleton[^}]*\}',
       'RowSingletonPS: the dual of a removed singleton row gets the wrong sign / is not complementary for a row that is one-sided in the original LP', regex=True)
 open_(['C08'], r'objoffset\.(okay|vanished):\{[^}]*MultiAggregation[^}]*\}',
